@@ -141,6 +141,10 @@ int main(int argc, char **argv) {
       src.ndecl = ndecl; memcpy(src.decl, decl, sizeof decl); memcpy(src.decllens, decllens, sizeof decllens);
       MLAConfigHandle rcfg = NULL;
       MLAStatus s1 = mla_reader_config_new(&rcfg);
+      /* a NULL configuration handle (with a valid key) and a NULL key must be refused, not dereferenced */
+      MLAStatus n1 = mla_reader_config_add_private_key(NULL, priv);
+      MLAStatus n2 = mla_reader_config_add_private_key(rcfg, NULL);
+      fprintf(res, "X rnull %" PRIu64 " %" PRIu64 "\n", (uint64_t)n1, (uint64_t)n2); fflush(res);
       MLAStatus s2 = mla_reader_config_add_private_key(rcfg, priv);
       fprintf(res, "X rcfg %" PRIu64 " %" PRIu64 "\n", (uint64_t)s1, (uint64_t)s2);
       MLAStatus st = mla_roarchive_extract(&rcfg, read_cb, seek_cb, file_cb, &src);
